@@ -387,7 +387,9 @@ def _decode_uspfs_table(
         ancestor_synteny = lca_sets[root_object]
         root_synteny = sort_synteny(lca_sets[root_object])
     else:
-        ancestor_synteny |= gain_sets[root_object]
+        # Build a new set: the inherited one is shared with the parent's
+        # decoding, with siblings and with lca_sets
+        ancestor_synteny = ancestor_synteny | gain_sets[root_object]
         root_synteny = sort_synteny(ancestor_synteny)
 
     if (
